@@ -40,6 +40,10 @@ pub struct Knobs {
     /// STARK prover: `(polynomial index, row, delta)`: add `delta` to one value of one auxiliary
     /// (lookup helper / running sum / cross-table) polynomial before it is committed.
     pub aux_perturb: Option<(usize, usize, u64)>,
+    /// PLONK lookup argument: shift each table's partial Sum/LDC chain by a constant chosen so that
+    /// the chain ends at zero whatever the looked-up pairs are (the shift is also written to the last
+    /// partial polynomial on the row that precedes the chain).
+    pub forge_lookup_chain_offset: bool,
 }
 
 thread_local! {
@@ -116,6 +120,33 @@ pub(crate) fn hook_quotient<F: Field>(
         for p in polys.iter_mut() {
             if p.coeffs.len() > quotient_degree {
                 p.coeffs.truncate(quotient_degree);
+            }
+        }
+    }
+    polys
+}
+
+/// `polys`: for each challenge, `num_lookup_polys` polynomials (RE first, then the partial SLDCs).
+/// `chains`: `(last_lu_row, first_lut_row)` of every lookup table.
+pub(crate) fn hook_lookup_polys<F: Field>(
+    mut polys: Vec<PolynomialValues<F>>,
+    chains: &[(usize, usize)],
+    num_lookup_polys: usize,
+) -> Vec<PolynomialValues<F>> {
+    if !knobs().forge_lookup_chain_offset || num_lookup_polys < 2 {
+        return polys;
+    }
+    let num_sldc = num_lookup_polys - 1;
+    for block in polys.chunks_mut(num_lookup_polys) {
+        for &(last_lu_row, first_lut_row) in chains {
+            let end = block[num_sldc].values[last_lu_row];
+            for row in last_lu_row..=first_lut_row {
+                for p in block[1..=num_sldc].iter_mut() {
+                    p.values[row] -= end;
+                }
+            }
+            if first_lut_row + 1 < block[num_sldc].values.len() {
+                block[num_sldc].values[first_lut_row + 1] -= end;
             }
         }
     }
